@@ -271,6 +271,43 @@ def big_case(ctx, rng):
         rep.fail(sig, case, {'n': n, 'summary': str(detail)[:500]})
 
 
+def live_load_case(ctx, rng, idx):
+    """load((descriptor, resource iterator)) fed by the *live* stream of another flow (its resources share one underlying
+    iterator when that flow concatenates or duplicates): the loaded package is what the feeding flow produces"""
+    rep = ctx.report
+    nres = rng.randint(2, 4)
+    tables = [[{'id': 10 * k + j, 'v': 'r%d-%d' % (k, j)} for j in range(rng.choice([0, 1, 3, 5]))] or [{'id': 10 * k, 'v': 'only'}]
+              for k in range(nres)]
+    kind = ['concatenate-first-two', 'concatenate-last-two', 'duplicate-first', 'delete-first', 'plain'][idx % 5]
+
+    def feeder():
+        steps = [copy.deepcopy(t) for t in tables]
+        if kind == 'concatenate-first-two':
+            steps.append(DF.concatenate({'id': [], 'v': []}, target={'name': 'merged', 'path': 'merged.csv'}, resources=['res_1', 'res_2']))
+        elif kind == 'concatenate-last-two':
+            steps.append(DF.concatenate({'id': [], 'v': []}, target={'name': 'merged', 'path': 'merged.csv'},
+                                        resources=['res_%d' % (nres - 1), 'res_%d' % nres]))
+        elif kind == 'duplicate-first':
+            steps.append(DF.duplicate('res_1', target_name='copy', target_path='copy.csv'))
+        elif kind == 'delete-first':
+            steps.append(DF.delete_resource('res_1'))
+        return Flow(*steps)
+    case = {'feeding_flow': kind, 'rows_per_resource': [len(t) for t in tables]}
+    try:
+        want_rows, want_dp, _ = feeder().results(on_error=None)
+        ds = feeder().datastream()
+        got_rows, got_dp, _ = Flow(DF.load((ds.dp.descriptor, ds.res_iter))).results(on_error=None)
+    except Exception as e:  # noqa
+        rep.case('live-load', case, nontrivial=False)
+        rep.fail('live-load:raises', case, repr(e)[:300])
+        return
+    rep.case('live-load', case)
+    names = lambda dp: [r['name'] for r in dp.descriptor['resources']]   # noqa: E731
+    if names(got_dp) != names(want_dp) or [[dict(r) for r in t] for t in got_rows] != [[dict(r) for r in t] for t in want_rows]:
+        rep.fail('live-load:differs-from-the-feeding-flow', case,
+                 {'expected': [names(want_dp), [len(t) for t in want_rows]], 'got': [names(got_dp), [len(t) for t in got_rows]]})
+
+
 def run(ctx):
     rep = ctx.report
     rep.rule = ('packages of 1-4 resources with differing schemas and sizes x selector forms x field mappings x '
@@ -291,6 +328,8 @@ def run(ctx):
             big_case(ctx, rng)
         for _ in range(ctx.n(40, 500)):
             sequence_case(ctx, rng)
+        for idx in range(ctx.n(30, 300)):
+            live_load_case(ctx, rng, idx)
     return ctx.finish(search=P.search_from_disagreements(ctx, oracle, LAYER_A))
 
 
